@@ -35,6 +35,23 @@ extern "C" void c19_shared_variable()
   vf_reach("shared_variable");
 }
 
+// word-sized payloads take the same locked path as larger ones
+extern "C" void c19_shared_variable_small()
+{
+  SharedVariable<double> sv(0.0);
+  vf_watch(&sv, sizeof(sv), &sv.mutex_, "SharedVariableSmall");
+  double p = vf_f64("b");
+  vf_thread(1, "store");
+  sv.store(p);
+  vf_thread(2, "load");
+  double q = sv.load();
+  vf_thread(2, "operator T");
+  double r = sv;
+  vf_watch_end();
+  vf_check((q == p) & (r == p), "load-returns-the-last-stored-value");
+  vf_reach("shared_variable_small");
+}
+
 extern "C" void c19_shared_optional()
 {
   SharedOptionalVariable<long> so;
